@@ -44,7 +44,8 @@ fn gen_program(r: &mut Rng, idx: u64) -> (Vec<u8>, &'static str) {
     if let Some(code) = fixed {
         return (code, "corpus");
     }
-    match r.below(10) {
+    match r.below(11) {
+        10 => (workload::gen_growth(r), "growth"),
         0..=4 => (workload::gen_copy(r), "copy"),
         5..=7 => (workload::gen_storage(r), "storage"),
         8 => (workload::gen_cfg(r), "cfg"),
